@@ -181,6 +181,7 @@ type State struct {
 // Params are the per-step environment parameters (fresh in every step)
 type Params struct {
 	DevCode     int32    // gRPC code answered by a device for a Set in this step (0 = OK)
+	RejectKind  int32    // kind of error with which the model plugin refuses in this step (see vPlugin.Validate)
 	CrashAfter  int      // store/device calls allowed in this step before the process stops (<0: no crash)
 	ArgTargets  [NT]bool // append: targets named by the new change
 	ArgRollback uint8    // append rollback: index to roll back
@@ -778,6 +779,14 @@ type vPlugin struct{ pluginregistry.ModelPlugin }
 func (p *vPlugin) Validate(ctx context.Context, jsonData []byte) error {
 	if S.Verdict[CurT][CurX] {
 		return nil
+	}
+	// the plugin did not accept: the error is whatever ModelPluginInfo.Validate can return (typed Invalid for a
+	// Valid:false answer, a typed or raw gRPC error of the stream, a wrapped send error)
+	switch P.RejectKind {
+	case 1:
+		return errors.NewUnavailable("model plugin unavailable")
+	case 2:
+		return status.Error(codes.InvalidArgument, "document refused")
 	}
 	return errors.NewInvalid("rejected by model")
 }
